@@ -1569,6 +1569,111 @@ static string opLts(const vector<string>& a)
 }
 
 // ---------------------------------------------------------------- dispatcher
+// ---------------------------------------------------------------- API sweep (C20): every remaining public entry point of the four
+// encodings is called once on well-formed operands; each call may complete ('R'), throw NotImplementedException ('N') or
+// another std::exception ('E') – anything else (sanitizer report, crash) ends the process and is the finding
+template <class F>
+static char sweepCall(F f)
+{
+	try { f(); return 'R'; }
+	catch (const NotImplementedException&) { return 'N'; }
+	catch (const std::exception&) { return 'E'; }
+}
+
+struct SweepCopyAll : public TA::AbstractCopyF { virtual bool operator()(const TA::Transition&) override { return true; } };
+
+template <class Aut>
+static string sweepBdd(const TAT& ta, const TAT& tb)
+{
+	string v;
+	AutBase::StateDict d1, d2;
+	Aut A = loadBdd<Aut>(ta, d1);
+	Aut B = loadBdd<Aut>(tb, d2);
+	size_t n = d1.size();
+	v += sweepCall([&]() { A.Reduce(); });
+	v += sweepCall([&]() { A.Complement(); });
+	v += sweepCall([&]() { A.GetCandidateTree(); });
+	for (int rel = 0; rel < 2; ++rel) for (int withN = 0; withN < 2; ++withN)
+		v += sweepCall([&]() {
+			SimParam sp;
+			sp.SetRelation(rel ? SimParam::e_sim_relation::TA_UPWARD : SimParam::e_sim_relation::TA_DOWNWARD);
+			if (withN) sp.SetNumStates(n);
+			A.ComputeSimulation(sp);
+		});
+	v += sweepCall([&]() {
+		AutBase::StateToStateMap m; StateType c = 0;
+		AutBase::StateToStateTranslWeak tr(m, [&c](const StateType&) { return c++; });
+		Aut r = A.ReindexStates(tr);
+		Serialization::TimbukSerializer ser; r.DumpToString(ser);
+	});
+	v += sweepCall([&]() { for (StateType q = 0; q < n + 2; ++q) (void)A.IsStateFinal(q); });
+	v += sweepCall([&]() { Aut c(A); c.SetStateFinal(n + 1); Aut d; d = c; d = std::move(c); Serialization::TimbukSerializer ser; d.DumpToString(ser, "symbolic"); });
+	v += sweepCall([&]() { Aut u = Aut::Union(A, B); Aut i = Aut::Intersection(A, u); Aut t = i.RemoveUselessStates(); Aut w = t.RemoveUnreachableStates(); });
+	return v;
+}
+
+static string opApiSweep(const vector<string>& a)
+{
+	TAT ta = parseTA(a.at(0)), tb = parseTA(a.at(1));
+	NfaT na = parseNfa(a.at(2)), nb = parseNfa(a.at(3));
+	string out;
+	{	// explicit tree automata
+		string v;
+		TA A = buildTA(ta), B = buildTA(tb);
+		v += sweepCall([&]() { A.ComputeSimulation(SimParam()); });
+		v += sweepCall([&]() { SimParam sp; sp.SetRelation(SimParam::e_sim_relation::TA_DOWNWARD); A.ComputeSimulation(sp); });
+		v += sweepCall([&]() { SimParam sp; sp.SetRelation(SimParam::e_sim_relation::TA_UPWARD); A.RemoveUselessStates().ComputeSimulation(sp); });
+		v += sweepCall([&]() { SimParam sp; sp.SetRelation(SimParam::e_sim_relation::FA_FORWARD); sp.SetNumStates(64); A.ComputeSimulation(sp); });
+		v += sweepCall([&]() { A.Reduce(ReduceParam()); });
+		v += sweepCall([&]() { for (const TA::Transition& t : A) (void)A.ToString(t); });
+		v += sweepCall([&]() { TA c; SweepCopyAll f; c.CopyTransitionsFrom(A, f); c.CopyTransitionsFrom(B, f); });
+		v += sweepCall([&]() {
+			AutBase::StateToStateMap m; StateType c = 0;
+			Util::TranslatorWeak<AutBase::StateToStateMap> idx(m, [&c](const StateType&) { return c++; });
+			A.BuildStateIndex(idx);
+		});
+		v += sweepCall([&]() { TA c(A); c.SetAlphabet(B.GetAlphabet()); Serialization::TimbukSerializer ser; c.DumpToString(ser); });
+		v += sweepCall([&]() { for (StateType q : A.GetUsedStates()) { for (const TA::Transition& t : A[q]) (void)t.GetParent(); } });
+		v += sweepCall([&]() { TA e; e.Reduce(); e.RemoveUselessStates(); e.GetCandidateTree(); e.Complement(); (void)e.IsLangEmpty(); (void)TA::CheckInclusion(e, e); });
+		out += "ta=" + v;
+	}
+	out += " bu=" + sweepBdd<BDDBottomUpTreeAut>(ta, tb);
+	{	// bottom-up only
+		string v;
+		AutBase::StateDict d1;
+		BDDBottomUpTreeAut A = loadBdd<BDDBottomUpTreeAut>(ta, d1);
+		v += sweepCall([&]() { (void)A.DumpToDot(); });
+		v += sweepCall([&]() { (void)A.GetTransMTBDDForTuple(BDDBottomUpTreeAut::StateTuple()); });
+		v += sweepCall([&]() { BDDTopDownTreeAut t = A.GetTopDownAut(); Serialization::TimbukSerializer ser; t.DumpToString(ser); });
+		out += " bux=" + v;
+	}
+	out += " td=" + sweepBdd<BDDTopDownTreeAut>(ta, tb);
+	{	// finite automata
+		string v;
+		FA A = buildNfa(na), B = buildNfa(nb);
+		v += sweepCall([&]() { A.Reduce(); });
+		v += sweepCall([&]() { A.Complement(); });
+		for (int rel = 0; rel < 2; ++rel) for (int withN = 0; withN < 2; ++withN)
+			v += sweepCall([&]() {
+				SimParam sp;
+				sp.SetRelation(rel ? SimParam::e_sim_relation::FA_BACKWARD : SimParam::e_sim_relation::FA_FORWARD);
+				if (withN) sp.SetNumStates(64);
+				A.ComputeSimulation(sp);
+			});
+		v += sweepCall([&]() {
+			AutBase::StateToStateMap m; StateType c = 0;
+			AutBase::StateToStateTranslWeak tr(m, [&c](const StateType&) { return c++; });
+			FA r = A.ReindexStates(tr);
+			(void)dumpNfa(r);
+		});
+		v += sweepCall([&]() { for (StateType q : A.GetStartStates()) (void)A.GetStartSymbols(q).size(); });
+		v += sweepCall([&]() { FA c(A); for (StateType q : B.GetStartStates()) c.SetExistingStateStart(q, B.GetStartSymbols(q)); (void)dumpNfa(c); });
+		v += sweepCall([&]() { FA e; e.RemoveUselessStates(); e.RemoveUnreachableStates(); e.Reverse(); e.GetCandidateTree(); (void)FA::CheckInclusion(e, A); (void)FA::CheckInclusion(A, e); });
+		out += " fa=" + v;
+	}
+	return out;
+}
+
 static string runCase(const string& kind, const vector<string>& args)
 {
 	if (kind == "incl") return opIncl(args);
@@ -1595,6 +1700,7 @@ static string runCase(const string& kind, const vector<string>& args)
 	if (kind == "bddh") return opBddHist(args);
 	if (kind == "bddtd") return opBddToTd(args);
 	if (kind == "mth" || kind == "mthrc") return opMtHist(args);
+	if (kind == "apisweep") return opApiSweep(args);
 	return "BADKIND";
 }
 
